@@ -222,6 +222,8 @@ pub struct Ledger {
     pub stats: Stats,
     /// first step index of the quiescence phase (if reached)
     pub quiesce_from: Option<usize>,
+    /// simulated time at which the probe phase started (if it did)
+    pub probe_start_ns: Option<u64>,
     /// the run hit the step cap before finishing
     pub truncated: bool,
 }
